@@ -327,6 +327,11 @@ func (res *CheckResult) checkVarOrigin(fnCall parser.FnCall, decl parser.VarDecl
 		resolution, ok := resolution.(VarOriginFnCallResolution)
 		if ok {
 			res.fnCallResolution[decl.Origin.Caller] = resolution
+			if decl.Name == nil || decl.Type == nil {
+				// incomplete declaration (e.g. while the user is typing): nothing to type-check yet
+				res.checkFnCallArity(&fnCall)
+				return
+			}
 			res.assertHasType(decl.Name, resolution.Return, decl.Type.Name)
 		}
 	}
